@@ -37,6 +37,11 @@ NearList(xs, ys) ==
 RegOK(fl, reg, rv) == /\ BagOfRle(rv.bag) = reg.a
                       /\ BagOfRle(rv.bagb) = reg.b
 
+\* C05: a rejected observation is reported with its value (f64 bits of the value codes <= 0)
+BadBits(code) == CASE code = 0 -> "0000000000000000" [] code = -1 -> "bff0000000000000"
+                   [] code = -2 -> "fff0000000000000" [] code = -3 -> "8000000000000000"
+                   [] OTHER -> "?"
+
 VARIABLES l, h, cov, nbad
 vars == <<l, h, cov, nbad>>
 Init == l = 1 /\ h = <<>> /\ cov = <<>> /\ nbad = 0
@@ -69,6 +74,12 @@ Next ==
                 \cup {c \in {"C09.batch"} : \E i \in DOMAIN e.regs :
                         IF e.tol THEN ~NearList(e.regs[i].obsv, e.regs[i].batchv)
                         ELSE e.regs[i].obs # e.regs[i].batch}
+         rej == fl \in {"geo", "harm"} /\ so.tag = "err" /\ so.variant = "NonPositiveValue"
+         f05 == {c \in {"C05.rejected_with_value"} : rej /\
+                    ~(e.out.tag = "err" /\ e.out.variant = "NonPositiveValue" /\ e.out.x.b = BadBits(so.v))}
+                \cup {c \in {"C05.rejection_keeps_state"} : rej /\ e.act.a \in {"append", "from_iter"} /\ ~fits(h0)}
+                \cup {c \in {"C05.rejection_keeps_state"} : rej /\ e.act.a = "extend" /\ ~(fits(h1) \/ fits(h2))}
+         c05 == IF rej THEN {"C05.rejected_with_value", "C05.rejection_keeps_state", "C05.rejected." \o fl} ELSE {}
          rt  == e.act.a = "roundtrip"
          f20 == {c \in {"C20.roundtrip_eq"} : rt /\ ~(e.out.tag = "ok" /\ e.out.rt_eq)}
                 \cup {c \in {"C20.twin"} : "twin" \in DOMAIN e /\
@@ -80,9 +91,9 @@ Next ==
                 \cup (IF so.tag = "err" THEN {"C09.rejected." \o so.variant} ELSE {})
                 \cup (IF so.tag = "err" /\ h1 # h2 THEN
                         (IF fits(h1) THEN {"C09.failed_bulk_keeps_prefix"} ELSE {"C09.failed_bulk_atomic"}) ELSE {})
-     IN /\ (f \cup f20 # {}) => PrintT("BAD " \o ToJson([id |-> e.id, failed |-> f \cup f20]))
-        /\ nbad' = nbad + (IF f \cup f20 = {} THEN 0 ELSE 1)
-        /\ cov' = Bump(cov, cs \cup c20)
+     IN /\ (f \cup f20 \cup f05 # {}) => PrintT("BAD " \o ToJson([id |-> e.id, failed |-> f \cup f20 \cup f05]))
+        /\ nbad' = nbad + (IF f \cup f20 \cup f05 = {} THEN 0 ELSE 1)
+        /\ cov' = Bump(cov, cs \cup c20 \cup c05)
         /\ h' = hn
   /\ l' = l + 1
 
